@@ -29,6 +29,11 @@ def junk_line(rng):
         return ":" * rng.randint(1, 4)
     if k < 0.56:
         return rng.choice(['"', "'", '""', "'quoted text'", '"a.b : c"'])
+    if k < 0.565:
+        # a unit field wrapped in very many bracket pairs (strip_brackets must not recurse per pair)
+        n = rng.choice([600, 1500, 3000])
+        o, c = rng.choice(["()", "[]"])
+        return "X." + o * n + c * n + " 5 : deep brackets"
     if k < 0.57:
         return "x" * 5000
     if k < 0.58:
@@ -92,7 +97,7 @@ def insert_junk(rng, text, n):
     return "\n".join(lines), inserted
 
 
-SYSTEMATIC_JUNK = ["note: see rev. 2", "foo: 1.5", ":.", "no delimiters at all", "X.Y.Z : w", "12345", "a:b.c"]
+SYSTEMATIC_JUNK = ["X." + "(" * 1500 + ")" * 1500 + " 5 : d", "note: see rev. 2", "foo: 1.5", ":.", "no delimiters at all", "X.Y.Z : w", "12345", "a:b.c"]
 
 
 def systematic_sites(rng, text):
